@@ -41,9 +41,10 @@ const (
 	DLag // macro: member A dies, the keys are written through the others, every live member compacts, A starts again
 	DJoinLate // the member left out at formation joins: allocators extend the under-replicated partitions they lead by it
 	DKillDuring // member A dies N ticks into a write of Key that entered through member Via (a crash at an instant of the write)
+	DConcurrent // three callers write at the same time, each its own keys (key mod 3), each through its own member
 )
 
-var dNames = []string{"insert", "update", "remove", "batchInsert", "batchRemove", "kill", "start", "restartAll", "snapshot", "read", "tick", "lag", "joinLate", "killDuringWrite"}
+var dNames = []string{"insert", "update", "remove", "batchInsert", "batchRemove", "kill", "start", "restartAll", "snapshot", "read", "tick", "lag", "joinLate", "killDuringWrite", "concurrent"}
 
 type DStep struct {
 	K    int   `json:"k"`
@@ -73,6 +74,8 @@ func (c DCase) String() string {
 			p = append(p, fmt.Sprintf("%s(%v via %d)", dNames[s.K], s.Keys, s.Via))
 		case s.K == DLag:
 			p = append(p, fmt.Sprintf("lag(%d misses %v)", s.A, s.Keys))
+		case s.K == DConcurrent:
+			p = append(p, fmt.Sprintf("concurrent(%v from member %d on)", s.Keys, s.Via))
 		case s.K == DKillDuring:
 			p = append(p, fmt.Sprintf("killDuringWrite(%d dies %d ticks into a write of %d via %d)", s.A, s.N, s.Key, s.Via))
 		case s.K == DKill || s.K == DSnapshot:
@@ -95,7 +98,7 @@ func genDCase(t *rapid.T) DCase {
 	}
 	step := rapid.Custom(func(t *rapid.T) DStep {
 		k := rapid.SampledFrom([]int{DInsert, DInsert, DInsert, DInsert, DInsert, DUpdate, DUpdate, DRemove, DRemove, DBatchInsert, DBatchInsert, DBatchRemove,
-			DKill, DKill, DStart, DStart, DRestartAll, DSnapshot, DSnapshot, DRead, DTick, DLag, DJoinLate, DKillDuring, DKillDuring}).Draw(t, "k")
+			DKill, DKill, DStart, DStart, DRestartAll, DSnapshot, DSnapshot, DRead, DTick, DLag, DJoinLate, DKillDuring, DKillDuring, DConcurrent, DConcurrent}).Draw(t, "k")
 		s := DStep{K: k, Via: rapid.IntRange(0, c.Members-1).Draw(t, "via"), A: rapid.IntRange(0, c.Members-1).Draw(t, "a")}
 		switch k {
 		case DInsert, DUpdate, DRemove:
@@ -107,6 +110,8 @@ func genDCase(t *rapid.T) DCase {
 			s.Keys = rapid.SliceOfNDistinct(rapid.IntRange(0, dKeys-1), 1, 4, rapid.ID[int]).Draw(t, "keys")
 		case DLag:
 			s.Keys = rapid.SliceOfNDistinct(rapid.IntRange(0, dKeys-1), 1, 5, rapid.ID[int]).Draw(t, "keys")
+		case DConcurrent:
+			s.Keys = rapid.SliceOfN(rapid.IntRange(0, dKeys-1), 2, 9).Draw(t, "keys")
 		case DTick:
 			s.N = rapid.SampledFrom([]int{1, 5, 25}).Draw(t, "n")
 		}
@@ -582,6 +587,87 @@ func runDCluster(c DCase, o *pbt.Obs) *pbt.Failure {
 					return f
 				}
 			}
+		case DConcurrent:
+			// caller j owns the keys with key mod 3 == j and enters through member Via+j: per key the history stays sequential
+			var mu sync.Mutex
+			var wg sync.WaitGroup
+			var fail *pbt.Failure
+			callers := 0
+			for j := 0; j < 3; j++ {
+				var mine []int
+				for _, k := range s.Keys {
+					if k%3 == j {
+						mine = append(mine, k)
+					}
+				}
+				via := pickVia(s.Via + j)
+				if len(mine) == 0 || via < 0 {
+					continue
+				}
+				ds := cl.Dataset(via, dsId)
+				if ds == nil {
+					continue
+				}
+				callers++
+				wg.Add(1)
+				go func(j int, mine []int, ds *storage.Dataset) {
+					defer wg.Done()
+					for n, k := range mine {
+						v := 1000*(si+1) + 10*j + n
+						mu.Lock()
+						present := m.st[k].present
+						mu.Unlock()
+						kind := DInsert
+						if present {
+							kind = DUpdate
+							if n%2 == 1 {
+								kind = DRemove
+							}
+						}
+						ctx, cancel := context.WithTimeout(context.Background(), 250*time.Millisecond)
+						var err error
+						switch kind {
+						case DInsert:
+							err = ds.Insert(ctx, dKey(k), vec(k, v), nil)
+						case DUpdate:
+							err = ds.Update(ctx, dKey(k), vec(k, v), nil)
+						default:
+							err = ds.Remove(ctx, dKey(k))
+						}
+						cancel()
+						mu.Lock()
+						if kind != DInsert {
+							insertOnly = false
+						}
+						if f := verdict(k, kind, err, v, fmt.Sprintf("%s caller %d", where, j)); f != nil && fail == nil {
+							fail = f
+						}
+						mu.Unlock()
+					}
+				}(j, mine, ds)
+			}
+			finished := make(chan struct{})
+			go func() { wg.Wait(); close(finished) }()
+			returned := false
+			for r := 0; r < 30000 && !returned; r++ {
+				select {
+				case <-finished:
+					returned = true
+				default:
+					cl.Tick(1)
+					time.Sleep(100 * time.Microsecond)
+				}
+			}
+			if !returned {
+				o.Inconclusive("write-did-not-return")
+				return nil
+			}
+			if fail != nil {
+				return fail
+			}
+			if callers >= 2 {
+				o.Label("concurrent-callers-through-different-members")
+			}
 		case DKillDuring:
 			a := s.A % c.Members
 			live, members := 0, 0
@@ -802,7 +888,7 @@ func runDCluster(c DCase, o *pbt.Obs) *pbt.Failure {
 func TestAckedWritesOnCluster(t *testing.T) {
 	pbt.Run(t, pbt.Prop[DCase]{
 		ID: "C03", Name: "TestAckedWritesOnCluster",
-		Rule:    "rapid-generated histories on 1-3 simulated nodes wired like server.go (package ctl: real zero groups, shared group, NodesManager, allocator, DatasetManager, partition raft groups loaded by the allocator): a dataset with 1-3 partitions and replication factor 1-3 is created through the DatasetManager API; single and batch writes over 10 keys enter through the Dataset API of any live member (proxied through in-memory DataManager clients); members are killed between two writes or a generated number of ticks into a write, and started again over their stores, one at a time (the others keep writing) or all at once; partition groups snapshot and compact; oracle: a reference map of the writes that ended with a verdict (acknowledged, or refused as existing/not found - a refusal must agree with the map); whenever all members are up and every replica has applied its leader's commit index, every hosting member's index holds exactly the map's value for every key without an abandoned write, with a member down a search or Len through a live member fails unless every partition has a live replica; Len through every member is the number of live keys, and a k=64 search through every member returns live keys only, none twice, at least one if any is live, and all of them while the history is insert-only; non-trivial = >=3 acknowledged writes, >=1 judged read and a member restart; distinct = distinct case JSON",
+		Rule:    "rapid-generated histories on 1-3 simulated nodes wired like server.go (package ctl: real zero groups, shared group, NodesManager, allocator, DatasetManager, partition raft groups loaded by the allocator): a dataset with 1-3 partitions and replication factor 1-3 is created through the DatasetManager API; single and batch writes over 10 keys enter through the Dataset API of any live member, also from three callers at once that own disjoint keys, (proxied through in-memory DataManager clients); members are killed between two writes or a generated number of ticks into a write, and started again over their stores, one at a time (the others keep writing) or all at once; partition groups snapshot and compact; oracle: a reference map of the writes that ended with a verdict (acknowledged, or refused as existing/not found - a refusal must agree with the map); whenever all members are up and every replica has applied its leader's commit index, every hosting member's index holds exactly the map's value for every key without an abandoned write, with a member down a search or Len through a live member fails unless every partition has a live replica; Len through every member is the number of live keys, and a k=64 search through every member returns live keys only, none twice, at least one if any is live, and all of them while the history is insert-only; non-trivial = >=3 acknowledged writes, >=1 judged read and a member restart; distinct = distinct case JSON",
 		Gen:     genDCase,
 		Check:   checkDCluster,
 		Journal: true,
